@@ -58,7 +58,10 @@ class System(ListeningSystem):
             return True
 
     def set_IF_switch_config(self, params):
-        self.sw_matrix.switch_matrix = int(params)
+        try:
+            self.sw_matrix.switch_matrix = int(params)
+        except ValueError:
+            return self.nack + self.tail
         return self.ack + self.tail
 
     def get_IF_switch_config(self):
@@ -82,4 +85,6 @@ class SwitchMatrix:
 
     @switch_matrix.setter
     def switch_matrix(self, value):
+        if value not in self._matrix:
+            raise ValueError(f'Unknown switch configuration: {value}')
         self._switch_matrix = value
